@@ -1,10 +1,31 @@
 """C14 — string positions are code points and regex builtins agree with match (docs/C14.md)."""
 import hashlib, json, os, re, sys
 import verif as V
+import jqdefs
 
 PROP = "C14"
 PROPS = "props/C14.v"
 DEPS = ["c13/Utf8.v", "c13/Codec.v", "c13/Jv.v", "c13/Time.v", "c13/Run.v", "c14/Pos.v", "c14/Run.v"]
+
+
+# sha256[:16] of the builtin.jq text of every definition transcribed by hand in coq/c14/Pos.v
+JQ_TEXT = {
+    "match/1": "82915361c488a041",
+    "match/2": "6cdac12cbd4b0b32",
+    "test/1": "410d75930091e007",
+    "test/2": "e1ebaeb431aecfbb",
+    "capture/1": "d50160fe5096f117",
+    "capture/2": "f93658d5acffba21",
+    "scan/1": "f736fed380c06880",
+    "scan/2": "6b43a36f6c01c762",
+    "splits/1": "7f3cfd0c4db30869",
+    "splits/2": "72155c688bde5ba6",
+    "split/2": "4bad2a1e7f4718f3",
+    "sub/2": "c954d4d804b85206",
+    "sub/3": "7d099b395e73526e",
+    "gsub/2": "4db71701da131bbe",
+    "gsub/3": "4bf9e2610fda4398",
+}
 
 
 def split_case(v):
@@ -46,7 +67,7 @@ def candidate_cases(mism):
     for line, _ in mism[:300]:
         kind, a = top_args(line)
         txt = None
-        if kind in ("match", "splits", "gsubid") and len(a) >= 3:
+        if kind in ("match", "splits", "gsubid", "test", "capture", "scan", "split2") and len(a) >= 3:
             r, f, s = hexof(a[0]), hexof(a[1]), hexof(a[2])
             if r and f and s:
                 txt = "subject=%s re=%s flags=%s" % (s, r, f)
@@ -75,11 +96,16 @@ def run(tier, seed):
         "not overlap) are CHECKED on every result by the extracted model (verdict hyp-violated otherwise)",
         "splits and sub/gsub theorems are about hand transcriptions of the builtin.jq foreach/reduce bodies (c14/Pos.v "
         "splits, sub_with), tied to the implementation by the splits/gsubid lines",
-        "test iff match, capture, scan, split/2 and termination have no theorem; they are evaluated on the "
-        "implementation only (regex stream), every query under a 5 s timeout",
+        "test, capture, scan, split/2 theorems are over transcriptions of their builtin.jq bodies (tied by the test/capture/"
+        "scan/split2 lines); MatchString = 'a first match exists', FindAll(s,1) = first of FindAll(s,-1), unique group "
+        "names and strictly increasing match ends (progress) are hypotheses CHECKED on every sampled regexp output",
+        "termination: regexp.allMatches is modelled over a single-search engine exec with hypothesis exec_progress; exec "
+        "itself is not observable through regexp's API, its consequences (orderedb, progressb) are checked on outputs; "
+        "the implementation's queries additionally run under a 5 s timeout",
         "flag x is not accepted by gojq (error); flag sets range over g, i, m and null",
     ]
     proved = c.prove(PROPS)
+    jqdefs.check(c, V.REPO, JQ_TEXT)
     exe_h, hlog = V.build_harness("c14")
     if exe_h is None:
         c.broken_correspondence("harness-build", None, V.tail(hlog, 40))
